@@ -4,6 +4,7 @@
 import Xandikos.Http.Spec
 import Xandikos.Http.FsMap
 import Xandikos.Http.Href
+import Xandikos.Http.Discovery
 import Xandikos.Py.PathProofs
 import Xandikos.Driver.Codec
 
@@ -38,6 +39,12 @@ def step (u : Unit) (line : String) : Unit × String :=
     (u, enc (hrefText h) ++ " " ++ enc (decodeTarget (hrefText h)))
   | ["location", script, coll, name] =>
     (u, enc (postLocation (fieldS script) (fieldS coll) (fieldS name)))
+  | ["createhref", href, base] =>
+    (u, enc (createHref (fieldS href) (field base)))
+  | ["cup", script, principal] =>
+    (u, enc (cupHref (fieldS script) (fieldS principal)))
+  | ["homeset", base, name] =>
+    (u, enc (homeSetHref (fieldS base) (fieldS name)))
   | _ => (u, "bad-op")
 
 end Xandikos.PureDriver
